@@ -31,7 +31,8 @@ type vfRtTimer struct {
 }
 
 func runC17SioRestart(c *sim.Ctx, t *testing.T) {
-	delays := []time.Duration{10 * time.Millisecond, 50 * time.Millisecond, 200 * time.Millisecond, time.Second, time.Hour}
+	// (0 and -1 ms: due at once - such a timer is pending all the same until its message is sent)
+	delays := []time.Duration{10 * time.Millisecond, 50 * time.Millisecond, 200 * time.Millisecond, time.Second, time.Hour, 0, -time.Millisecond}
 	n := 1 + c.Intn(4, "ntimers")
 	timers := make([]*vfRtTimer, n)
 	for i := range timers {
@@ -186,6 +187,8 @@ func runC17SioRestart(c *sim.Ctx, t *testing.T) {
 	seenLog := map[int]int{}
 	lastReported := map[string]bool{} // ids in the last timers state reported before the crash
 	removedReported := map[string]bool{}
+	everListed := map[string]bool{} // ids that some report before the crash listed as pending
+	crashed := false
 	staleReport := ""
 	for _, e := range evs {
 		c.MixHash(fmt.Sprintf("%d %s %s %s %d %v %s", e.Seq, e.Kind, e.Id, e.Err, e.N, e.At, vfShort(e.Val)))
@@ -197,6 +200,7 @@ func runC17SioRestart(c *sim.Ctx, t *testing.T) {
 		switch e.Kind {
 		case "crash":
 			crashAt = e.At
+			crashed = true
 		case "boot":
 			bootAt = e.At
 		case "boot-error":
@@ -227,6 +231,7 @@ func runC17SioRestart(c *sim.Ctx, t *testing.T) {
 				if mp, ok := tm.State.Bs["timers"].(map[string]interface{}); ok {
 					for id := range mp {
 						now[id] = true
+						everListed[id] = true
 					}
 				}
 				for id := range lastReported {
@@ -261,6 +266,19 @@ func runC17SioRestart(c *sim.Ctx, t *testing.T) {
 	if staleReport != "" {
 		c.Violate("timer:sio:restart:stale-report", "%s (%s)", staleReport, desc)
 		return
+	}
+	if crashed {
+		// Every request had been processed and reported when the crash came (the controller's
+		// last message was taken after them).  The round that makes a timer cannot also handle
+		// its message, so at the boundary after that round the timer's message is still to come
+		// for the running crew: a crew rebuilt from the store at that boundary must know the
+		// timer - the round's report has to list it, however soon it is due.
+		for _, tm := range timers {
+			if !everListed[tm.id] {
+				c.Violate("timer:sio:restart:never-reported", "timer %s was made (its request was processed and reported) but no report ever listed it as pending: a crew rebuilt from the store right after that request would never send its message (%s)", tm.id, desc)
+				return
+			}
+		}
 	}
 	if bootErr != "" {
 		c.Violate("timer:sio:restart:boot-error", "the crew could not be rebuilt from the stored state: %s (%s)", bootErr, desc)
